@@ -3,6 +3,7 @@
 From PS Require Import Lib.Base Generated.Consts Model.SdTypes Model.Config.
 From PS Require Import Lib.Struct Model.Someip Model.SdCodec Model.Session Model.ServiceRecv.
 From PS Require Import Model.StackTypes Model.Stack Model.StackIO.
+From PS Require Import Spec.TraceSpec Spec.StoreSpec.
 From PS Require Import Spec.C19Spec Spec.C07Spec Spec.C16Spec Spec.C01Spec Spec.C02Spec.
 
 Definition bad : sexp := L [A 255; A 255; A 255].
@@ -89,10 +90,25 @@ Definition dispatch_service (op : N) (arg : sexp) : option sexp :=
   | _, _ => None
   end.
 
+Definition check_op (f : scenario -> trace -> list N) (arg : sexp) : option sexp :=
+  match arg with
+  | L [sc; tr] => let? sc' := d_scenario sc in let? tr' := d_trace tr in Some (L (map A (f sc' tr')))
+  | _ => None
+  end.
+
+Definition dispatch_check (op : N) (arg : sexp) : option sexp :=
+  match op with
+  | 3005 => check_op check_C05 arg
+  | 3006 => check_op check_C06 arg
+  | 3009 => check_op check_C09 arg
+  | _ => None
+  end.
+
 Definition dispatch (op : N) (arg : sexp) : sexp :=
   if (1900 <? op) && (op <? 2000) then of_opt (dispatch_config op arg)
   else if (100 <? op) && (op <? 300) then of_opt (dispatch_codec op arg)
   else if (700 <? op) && (op <? 900) then of_opt (dispatch_session op arg)
   else if (1600 <? op) && (op <? 1700) then of_opt (dispatch_service op arg)
   else if op =? 3001 then of_opt (run_op arg)
+  else if (3001 <? op) && (op <? 3100) then of_opt (dispatch_check op arg)
   else bad.
